@@ -50,6 +50,7 @@ type c05NegoOut struct {
 	Agent    [3]int64 `json:"agent"` // span, log, custom as the daemon's ints
 	Caps     []int64  `json:"caps"`  // cap() of the reservoirs made by NewHarvest
 	Panic    string   `json:"panic,omitempty"`
+	Unsafe   bool     `json:"unsafe,omitempty"` // a limit outside [0, 10^6]: NewHarvest was not called
 	AdvMs    int64    `json:"adv_ms"`
 	Adv      []int64  `json:"adv"`
 	E2ECaps  []int64  `json:"e2e_caps,omitempty"`
@@ -179,6 +180,15 @@ func c05RunNego(c c05Nego, k int) (out c05NegoOut) {
 			}
 		}()
 		processLogEventLimits(app)
+		final, _ := c05EventConfigs(app.connectReply.EventHarvestConfig.EventConfigs)
+		for _, l := range final {
+			if l < 0 || l > 1000000 {
+				// NewHarvest would try to allocate that many slots (a fatal out-of-memory error or a
+				// makeslice panic): report the sizes it would be given instead of calling it
+				out.Caps, out.Unsafe = final, true
+				return
+			}
+		}
 		hv := NewHarvest(time.Now(), app.connectReply.EventHarvestConfig.EventConfigs)
 		out.Caps = c05Caps(hv)
 	}()
@@ -701,7 +711,7 @@ func TestVerifC05(t *testing.T) {
 	out.Nego = []c05NegoOut{}
 	for i, c := range in.Nego {
 		o := c05RunNego(c, i)
-		if c.E2E {
+		if c.E2E && !o.Unsafe && o.Panic == "" {
 			if e2e == nil {
 				e2e = c05NewE2E()
 			}
